@@ -42,6 +42,8 @@ type scriptConn struct {
 	// write fault: the faultAt-th Write (0-based; -1: never) accepts faultN bytes and reports a timeout
 	faultAt, faultN int
 	nwrites         int
+	// closeErr: Close reports an error (a TLS connection that cannot send its close notification does)
+	closeErr bool
 }
 
 type fakeAddr struct{}
@@ -95,6 +97,9 @@ func (c *scriptConn) Write(p []byte) (int, error) {
 func (c *scriptConn) Close() error {
 	verifrt.Yield("conn.Close")
 	c.closed = true
+	if c.closeErr {
+		return errors.New("tls: failed to send closeNotify alert (but connection was closed anyway)")
+	}
 	return nil
 }
 func (c *scriptConn) LocalAddr() net.Addr                { return fakeAddr{} }
@@ -140,9 +145,17 @@ func hashBytes(b []byte) uint64 {
 // ofParser is the parser handed to the stream (openflow13.Parse). When seen is set it records the
 // frames it was asked to parse: a frame a parser goroutine has taken and parsed belongs to the
 // consumer, whatever happens to the connection afterwards.
-type ofParser struct{ seen *[][]byte }
+type ofParser struct {
+	seen *[][]byte
+	// slow: parsing takes time: the other goroutines of the process run between the moment the parser
+	// is handed the frame and the moment it looks at it (the frame is the parser's until Parse returns)
+	slow bool
+}
 
 func (p ofParser) Parse(b []byte) (util.Message, error) {
+	if p.slow {
+		verifrt.Yield("parser.Parse")
+	}
 	if p.seen != nil {
 		*p.seen = append(*p.seen, append([]byte{}, b...))
 	}
@@ -271,6 +284,10 @@ type streamScenario struct {
 	// ZeroXid: every submitted message carries transaction id 0 (asynchronous replies and raw frames do)
 	ZeroXid bool `json:"zero_xid,omitempty"`
 	AsBuffer bool  `json:"as_buffer,omitempty"`
+	// SlowParser: the parser yields to the other goroutines before it looks at the frame it was given.
+	// CloseErr: closing the connection reports an error.
+	SlowParser bool `json:"slow_parser,omitempty"`
+	CloseErr   bool `json:"close_error,omitempty"`
 	OutSizes []int `json:"out_sizes,omitempty"`
 	OutKinds  []int   `json:"out_kinds,omitempty"` // outbound kind sweep: indices into the list of all encodable message kinds // outbound size sweep: total sizes of packet-outs submitted by one producer
 }
@@ -291,6 +308,7 @@ type streamRun struct {
 	prodDone  int
 	parsed    [][]byte // the frames the stream handed to its parser, in order
 	gotOther  int      // deliveries on the second stream (TwoStreams)
+	errs      int      // errors received from the error channel by the harness's error consumer
 }
 
 func policyPrio(policy string) func(name string) int {
@@ -363,7 +381,7 @@ func newStreamExplorer(sc streamScenario, alphabet []streamFrame, outAlphabet []
 			}
 			chunks = append(z, []byte{})
 		}
-		run.conn = &scriptConn{chunks: chunks, faultAt: -1}
+		run.conn = &scriptConn{chunks: chunks, faultAt: -1, closeErr: sc.CloseErr}
 		if sc.WriteFault != nil {
 			run.conn.faultAt, run.conn.faultN = sc.WriteFault[0], sc.WriteFault[1]
 		}
@@ -381,6 +399,7 @@ func newStreamExplorer(sc streamScenario, alphabet []streamFrame, outAlphabet []
 	e.Body = func() {
 		run.parsed = nil
 		run.gotOther = 0
+		run.errs = 0
 		if sc.TwoStreams {
 			other := util.NewMessageStream(&scriptConn{faultAt: -1}, ofParser{})
 			verifrt.GoNamed("consumer-of-the-other-connection", func() {
@@ -391,7 +410,7 @@ func newStreamExplorer(sc streamScenario, alphabet []streamFrame, outAlphabet []
 				}
 			})
 		}
-		ms := util.NewMessageStream(run.conn, ofParser{seen: &run.parsed})
+		ms := util.NewMessageStream(run.conn, ofParser{seen: &run.parsed, slow: sc.SlowParser})
 		run.ms = ms
 		verifrt.NameChan(ms.Inbound, 1)
 		verifrt.NameChan(ms.Outbound, 2)
@@ -403,6 +422,16 @@ func newStreamExplorer(sc streamScenario, alphabet []streamFrame, outAlphabet []
 		}
 		if ps := reflect.ValueOf(ms).Elem().FieldByName("parserShutdown"); ps.IsValid() {
 			verifrt.NameChanID(ps.Pointer(), 7)
+		}
+		if sc.CloseErr {
+			// whoever uses a stream listens on its error channel
+			verifrt.GoNamed("error-consumer", func() {
+				for {
+					verifrt.Recv(ms.Error)
+					run.errs++
+					verifrt.Observe(uint64(run.errs) * 104729)
+				}
+			})
 		}
 		verifrt.GoNamed("consumer", func() {
 			for {
@@ -476,6 +505,7 @@ func newStreamExplorer(sc streamScenario, alphabet []streamFrame, outAlphabet []
 		h := run.conn.key()
 		h = h*31 + uint64(len(run.got))
 		h = h*31 + uint64(run.prodDone)
+		h = h*31 + uint64(run.errs)
 		return h
 	}
 	e.Check = func(x *verifrt.Exec) { check(run, x) }
@@ -529,7 +559,7 @@ func stuckThreads(x *verifrt.Exec) []string {
 	for _, b := range x.BlockedOps() {
 		switch {
 		case b.Kind == "wait" && (b.Site == "conn.Read" || b.Site == "join"):
-		case b.Kind == "comm" && len(b.Send) == 0 && len(b.Recv) > 0 && onlyFrom(b.Recv, chInbound, chOutbound, chShutdown, chFull, chParserShutdown):
+		case b.Kind == "comm" && len(b.Send) == 0 && len(b.Recv) > 0 && onlyFrom(b.Recv, chInbound, chOutbound, chShutdown, chFull, chParserShutdown, chError):
 		case b.Kind == "comm" && len(b.Send) == 0 && contains(b.Recv, chOutbound):
 			// drain loop: Outbound or the ten-minute ticker (an unnamed channel)
 		default:
